@@ -240,7 +240,6 @@ V3_METHODS = {
     'lstrip': (['optchars'], [], 'abs-chars'), 'rstrip': (['optchars'], [], 'abs-chars'), 'strip': (['optchars'], [], 'abs-chars'),
     'removeprefix': (['str'], [], 'abs'), 'removesuffix': (['str'], [], 'abs'),
     'replace': (['str', 'operand', 'smallcount'], [], 'abs'),
-    'expandtabs': (['smallint'], [], 'abs'),
     'center': (['int', 'char'], ['bool'], 'table'), 'ljust': (['int', 'char'], ['bool'], 'table'),
     'rjust': (['int', 'char'], ['bool'], 'table'), 'zfill': (['int'], [], 'table'),
 }
@@ -318,7 +317,7 @@ GROUPS.append(Group('V3', 'in-place variants return the receiver and equal the c
                     'receiver untouched', ['C08', 'C13'], 'B', ['AnsiString.' + m for m in sorted(V3_METHODS)], v3_items, v3_task,
                     bounds='abstract table (unbounded) for the methods built on slicing/concatenation; concrete tables with '
                     'N<=2/3 change points for the padding methods; strip family on texts of length <=2/3; replace with '
-                    'count in {0,1,2}', assumes=['G2', 'A1', 'V5', 'SL']))
+                    'count in {0,1,2}; expandtabs is replace by group X7', assumes=['G2', 'A1', 'V5', 'SL']))
 
 
 # ============================================================================================= Z3: AnsiStr.__iter__
